@@ -132,6 +132,8 @@ func runC07(p *Prog, r *Report) {
 	ruleSortedList(p, r, le, "shaping", "pairedDelims", 60)
 	r.Explain = append(r.Explain, "R-TAB/parity: pairedDelims is consulted by position (even: opening, odd: closing, counterpart at index-1): no opening punctuation (Ps) at an odd index, no closing one (Pe) at an even index, an even number of entries — one unpaired character shifts every following pair (found on the pinned tree: the CJK brackets were handled with open and close exchanged).")
 	ruleDelimParity(p, r, le, "shaping", "pairedDelims")
+	r.Explain = append(r.Explain, "R-TAB/scriptlang: the representative language that language.ScriptToLang gives for a script is one that languagesInfos lists as written in that script — what enforceLanguages substitutes for a language not used for the script is itself compatible with it.")
+	ruleScriptToLang(p, r, le, "language", "ScriptToLang", "languagesInfos", 30)
 	ruleSortedRanges(p, r, le, "language", "ScriptRanges", "Start", "End", 900)
 	r.Explain = append(r.Explain, "R-BIDI/par: bidi.Paragraph.SetString stops at the first paragraph separator (class B) and returns the bytes consumed; every caller in the module uses that count, or cuts the text at the separators itself (it, or its caller, compares the bidi class of a rune with bidi.B): the text after a newline gets its own levels instead of inheriting the direction of the run before.")
 	ruleBidiParagraphs(p, r, 1)
